@@ -64,7 +64,9 @@ Styles == {Plain}
           \* a string literal holding a keyword look-alike ('x from mem y', 'x join mem y') combined with the white
           \* space classes after the real FROM (text searches for "from " then find the literal first)
           \cup { [fn |-> "none", decoy |-> z[1], ws |-> z[2], kw |-> "upper"] : z \in {"string", "string_join"} \X {"nl", "tab", "nlsp", "sp2"} }
-          \cup { [Plain EXCEPT !.ws = w]    : w \in {"sp2", "nl", "tab", "nlsp", "cmt"} }
+          \* "tight": the EMPTY white-space class wherever SQL allows it: AS( of a CTE, )SELECT after a CTE body,
+          \* IN( and FROM( before a subquery
+          \cup { [Plain EXCEPT !.ws = w]    : w \in {"sp2", "nl", "tab", "nlsp", "cmt", "tight"} }
           \cup { [Plain EXCEPT !.kw = k]    : k \in {"lower", "mixed"} }
           \cup { [fn |-> "extract", decoy |-> "none", ws |-> "nl", kw |-> "lower"],
                  [fn |-> "none", decoy |-> "string", ws |-> "cmt", kw |-> "upper"] }
